@@ -131,6 +131,30 @@ func c03FnKinds() [][]c03Field {
 	return out
 }
 
+// c03NumKinds: every construct that compares or combines numbers, with a left
+// operand of every numeric kind a row can produce (integer, float with and
+// without a fraction, number read from text) against integer, float and mixed
+// literals: an integer and a float of the same value are the same number in
+// both iteration modes. One entry per left operand.
+func c03NumKinds() [][]string {
+	lefts := []string{"int(value)", "float(value)", "int(value) * 0.5", "float(value) * 2", "value", "strlen(value) / 1.0", "int(value) / 2", "list(float(value), 2)[0]"}
+	forms := []string{
+		"{} in (1, 2, 5)", "{} in (1.0, 2)", "{} in (2)", "{} in (1, 2.5)", "{} in (0.5, 1.5, 2.5)", "{} in (int(value), 7)", "{} in (float(value), 7)", "{} in (int(value) * 0.5, 1)",
+		"2 in ({}, 1)", "2.0 in (1, {})", "{} = 2", "{} = 2.0", "{} != 1", "{} != 1.0", "{} < 2", "{} <= 2.0", "{} > 1", "{} >= 1.5", "2 <= {}", "1.5 < {}",
+		"{} between 1 and 2", "{} between 1.0 and 2.5", "{} between 0.5 and 2", "{} between 2 and 2.0", "2 between {} and 5", "{} + 1 = 3", "{} * 2 = 4.0", "{} - 0.5 = 1.5", "{} / 2 = 1",
+		"{} = int(value)", "{} = float(value)", "{} >= int(value) * 0.5",
+	}
+	var out [][]string
+	for _, l := range lefts {
+		var fs []string
+		for _, f := range forms {
+			fs = append(fs, strings.ReplaceAll(f, "{}", l))
+		}
+		out = append(out, fs)
+	}
+	return out
+}
+
 func c03Limits(b int) []string {
 	return []string{"", " limit 0, 2", " limit 1, 2", fmt.Sprintf(" limit %d, 3", b), fmt.Sprintf(" limit %d, 1", 2*b), " limit 0, 0", " limit 2",
 		fmt.Sprintf(" limit %d, 2", b+1), fmt.Sprintf(" limit %d, 2", 2*b+1),
@@ -225,6 +249,9 @@ func c03Units(t core.Tier) []c03Unit {
 	for i := range c03FnKinds() {
 		us = append(us, c03Unit{"fk", i})
 	}
+	for i := range c03NumKinds() {
+		us = append(us, c03Unit{"nk", i})
+	}
 	return us
 }
 
@@ -313,6 +340,16 @@ func (c03) RunUnit(t core.Tier, u int, r *core.Reporter) {
 							run("select "+sel+" where "+w.w+o.o+lim, kind, o.cols, b)
 						}
 					}
+				}
+			}
+		}
+	case "nk":
+		for _, e := range c03NumKinds()[un.i] {
+			for _, kind := range []string{"num", "mixnum"} {
+				for _, b := range append(append([]int(nil), bs...), 32) {
+					run("select key, "+e+" as x where true", kind, nil, b)
+					run("select key where "+e, kind, nil, b)
+					run("select key, value where key > 'a001' & ("+e+") order by value desc", kind, nil, b)
 				}
 			}
 		}
